@@ -49,8 +49,8 @@ func C17(r *core.Report) {
 	r.Floor("C17.R9", 1)
 	r.Floor("C17.R1", 10)
 	r.Floor("C17.R2", 1)
-	r.Floor("C17.R3", 2)
-	r.Floor("C17.R4", 2)
+	r.Floor("C17.R3", 1)
+	r.Floor("C17.R4", 1)
 	r.Floor("C17.R5", 1)
 	r.Floor("C17.R6", 1)
 }
